@@ -355,6 +355,41 @@ def _only(run, kind):
 PRELOAD = {"SUBSTREAMS_DISABLE_PRELOAD_EXEC_FILES": "true"}   # (sic) any value but "", "0", "false" switches the walker's file preloader ON
 
 
+def _confirm_watchdog(run, first, kind, n, env, prefix, module="TraceSystem"):
+    """A request that ran into the harness's WATCHDOG (30 s / 120 s) is a hang only if it hangs again: under memory or I/O
+    pressure a healthy request can be stalled that long. Each such violation is re-run alone (same seed, its scenario only), up
+    to twice; when it does not reproduce it is withdrawn and the check ends as infrastructure trouble (exit 2), never as a
+    violation (rule 1 of DESIGN section 5: timeouts are not verdicts)."""
+    import json as _json
+    unconfirmed = []
+    for v in list(run.violations[first:]):
+        try:
+            rp = _json.load(open(v["replay"]))
+        except Exception:
+            continue
+        err = str(((rp.get("record") or {}).get("obs") or {}).get("err", ""))
+        if "context deadline exceeded" not in err or rp.get("scenario") is None:
+            continue
+        sigs = set(rp.get("unknown") or [])
+        again = False
+        for attempt in range(2):
+            tr2 = _t(run, "confirm-%s-%d-%d.ndjson" % (kind or "all", rp["scenario"], attempt))
+            extra = (["-x", kind] if kind else []) + (["-n", str(n)] if n else []) + ["-only", str(rp["scenario"])]
+            run.harness("system", tr2, extra=extra, timeout=3000, env=env, allow_empty=True)
+            v2 = run.validate(module, tr2, xss="512m")
+            run.cov["traces_validated_against_impl"] -= v2.get("n", 0)
+            if any(sigs & set(w for w in b["why"] if w.startswith(prefix)) for b in v2.get("bad", [])):
+                again = True
+                break
+        if not again:
+            run.violations.remove(v)
+            unconfirmed.append({"scenario": rp["scenario"], "why": sorted(sigs), "replay": v["replay"]})
+    if unconfirmed:
+        run.cov.setdefault("watchdog_expiries_not_reproduced", []).extend(unconfirmed)
+        run.pending_infra = "a request ran into the harness watchdog but completed normally when its scenario was re-run alone (twice): " \
+                            "machine under memory / I/O pressure? %s" % unconfirmed
+
+
 def _system_trace(run, prefix, kind="", n=None, env=None, tag=""):
     tr = _t(run, "system-%s%s.ndjson" % (kind or "all", tag))
     extra = []
@@ -368,7 +403,9 @@ def _system_trace(run, prefix, kind="", n=None, env=None, tag=""):
     else:
         info = run.harness("system", tr, extra=extra, timeout=3000, env=env)
     v = run.validate_sharded("TraceSystem", tr, boundary='"ev":"prog"', shards=12, xss="512m")
+    nviol = len(run.violations)
     run.judge(v, tr, "system-" + (kind or "all") + tag, only=prefix)
+    _confirm_watchdog(run, nviol, kind, n, env, prefix)
     if kind != "forks" and kind != "faults" and not _only(run, kind):
         _st_system(run, tr)
     run.cov["distinct_nontrivial"] += info["distinct_nontrivial"]
@@ -501,7 +538,9 @@ def C05(run):
             _st_sched(run, trk)
         # a run that hangs or fails is reported by TraceSystem (C05 liveness on the real code: the request must terminate)
         v2 = run.validate_sharded("TraceSystem", trk, boundary='"ev":"prog"', shards=12, xss="512m")
+        nv = len(run.violations)
         run.judge(v2, trk, "sched-" + kind + "-termination", only="C05:")
+        _confirm_watchdog(run, nv, kind, n, None, "C05:")
         run.cov["distinct_nontrivial"] += info["distinct_nontrivial"]
         total += info["records"]
     # the repository's OWN integration tests (compiled WASM modules on the real runtime, segment size 10, one and five workers):
